@@ -84,7 +84,20 @@ func hval(vk string, v int) int64 {
 		}
 		return h*8 + 3
 	case "pointer":
+		if v%5 == 0 {
+			return -5
+		}
 		return int64(v)*31 + hstr("n"+itoa(v))
+	case "iface":
+		switch v % 4 {
+		case 0:
+			return -6
+		case 1:
+			return int64(v) * 3
+		case 2:
+			return hstr("i" + itoa(v))
+		}
+		return (9*1000003+int64(v))*8 + 1 + 1
 	}
 	panic("hval")
 }
@@ -99,6 +112,8 @@ func hzero(vk string) int64 {
 		return 72
 	case "pointer":
 		return -5
+	case "iface":
+		return -6
 	}
 	panic("hzero")
 }
